@@ -261,6 +261,7 @@ Definition is_payout (o : sp_op) : bool :=
 Definition op_wf (o : sp_op) : Prop :=
   match o with
   | ODeposit a _ _ | ORegister a _ | OClaim a _ | OBankSend a _ => 0 <= a
+  | ORotate a a' _ => 0 <= a /\ 0 <= a'
   | _ => True
   end.
 
@@ -421,6 +422,16 @@ Proof.
     + unfold sp_create in H. destruct (weights_ok T); cbn [negb] in H; [|discriminate].
       destruct (zhas p (s_pools s)); [discriminate|]. inversion H; subst s'. unfold sum_books. cbn [s_pools s_bank].
       split; intros; [rewrite (sum_app1 (fun P => p_bal P d))|]; cbv beta; cbn [snd p_bal]; unfold czero; lia.
+  - (* deposit from a module account *)
+    destruct (coins_valid amt) eqn:V; cbn [negb] in H; [|discriminate].
+    destruct (zget p (s_pools s)) as [P|] eqn:EP; [|discriminate]. inversion H; subst s'.
+    unfold sum_books. cbn [s_pools s_bank]. rewrite Z.eqb_refl.
+    split; intros; pose proof (cof_nonneg amt d V); [rewrite (sum_zset (fun P => p_bal P d) p P _ _ EP); cbv beta; cbn [p_bal]|];
+      unfold cadd; lia.
+  - (* address rotation: the module account is not a party *)
+    destruct (negb pre_ok || (a =? a')); [discriminate|]. inversion H; subst s'. destruct WF as [Wa Wa'].
+    unfold sum_books. cbn [s_pools s_bank]. unfold bank_rotate, MODULE.
+    assert ((-1 =? a) = false) as -> by lia. assert ((-1 =? a') = false) as -> by lia. split; intros; lia.
 Qed.
 
 Lemma step_unfold : forall s e, step s e = match apply (fst e) (snd e) s with Ok s' => s' | _ => s end.
@@ -919,6 +930,23 @@ Variable quorum_checked : bool.
 Variable actors : list (Z * list Z).
 Variable U : list Z.
 
+Lemma claims_rotate_keys : forall a a' cl k, pget k (claims_rotate a a' cl) <> None -> pget k cl <> None \/ snd k = a'.
+Proof.
+  intros a a' cl k. unfold claims_rotate.
+  set (keep := fun e : pkey * Z => negb ((snd (fst e) =? a') && match pget (fst (fst e), a) cl with Some _ => true | None => false end)).
+  assert (G : forall l, pget k (map (fun e : pkey * Z => if snd (fst e) =? a then ((fst (fst e), a'), snd e) else e) (filter keep l)) <> None ->
+                        pget k l <> None \/ snd k = a').
+  { induction l as [|[k0 v] l IH]; cbn [filter map pget]; [auto|].
+    destruct (keep (k0, v)); cbn [map pget fst snd].
+    - destruct (snd k0 =? a) eqn:E; cbn [pget].
+      + destruct (pkey_eqb (fst k0, a') k) eqn:E2.
+        * apply pkey_eqb_eq in E2. subst k. cbn. auto.
+        * intro N. destruct (IH N) as [L|R]; [|auto]. left. destruct (pkey_eqb k0 k); [discriminate | exact L].
+      + destruct (pkey_eqb k0 k); [intros _; left; discriminate|]. exact IH.
+    - intro N. destruct (IH N) as [L|R]; [|auto]. left. destruct (pkey_eqb k0 k); [discriminate | exact L]. }
+  apply G.
+Qed.
+
 Lemma claim_keeps_keys : forall now p a s s' k, sp_claim actors now p a s = Ok s' ->
   pget k (s_claims s') <> None -> pget k (s_claims s) <> None.
 Proof.
@@ -937,7 +965,7 @@ Qed.
 
 Lemma step_new_claim_record : forall now o s s' k, sp_apply dynguard payout_safe quorum_checked actors U now o s = Ok s' ->
   pget k (s_claims s') <> None ->
-  pget k (s_claims s) <> None \/ exists a p, o = ORegister a p /\ k = (p, a).
+  pget k (s_claims s) <> None \/ (exists a p, o = ORegister a p /\ k = (p, a)) \/ (exists a b, o = ORotate a (snd k) b).
 Proof.
   intros now o s s' k H N. destruct o; cbn [sp_apply] in H.
   - unfold sp_create in H. destruct (negb _); [discriminate|]. destruct (zhas _ _); [discriminate|]. inversion H; subst; auto.
@@ -945,7 +973,7 @@ Proof.
     destruct (zget _ _); [|discriminate]. inversion H; subst; auto.
   - unfold sp_register in H. destruct (zget p (s_pools s)); [|discriminate]. destruct (negb _); [discriminate|].
     inversion H; subst s'. cbn [s_claims] in N. rewrite pget_pset in N.
-    destruct (pkey_eqb (p, a) k) eqn:E; [|auto]. apply pkey_eqb_eq in E. right. exists a, p. auto.
+    destruct (pkey_eqb (p, a) k) eqn:E; [|auto]. apply pkey_eqb_eq in E. right. left. exists a, p. auto.
   - apply soften_ok in H. left. exact (claim_keeps_keys _ _ _ _ _ _ H N).
   - unfold sp_update in H. destruct (zget _ _); [|discriminate]. inversion H; subst; auto.
   - apply soften_ok in H. unfold sp_distribute in H. destruct (zget _ _); [|discriminate]. left. exact (claim_all_keeps_keys _ _ _ _ _ _ H N).
@@ -956,20 +984,27 @@ Proof.
   - destruct quorum_checked; [discriminate|]. destruct upd.
     + unfold sp_update in H. destruct (zget _ _); [|discriminate]. inversion H; subst; auto.
     + unfold sp_create in H. destruct (negb _); [discriminate|]. destruct (zhas _ _); [discriminate|]. inversion H; subst; auto.
+  - destruct (negb _); [discriminate|]. destruct (zget _ _); [|discriminate]. inversion H; subst; auto.
+  - destruct (negb pre_ok || (a =? a')); [discriminate|]. inversion H; subst s'. cbn [s_claims] in N.
+    destruct (claims_rotate_keys _ _ _ _ N) as [L|R]; [auto|]. right. right. exists a, pre_ok. rewrite R. reflexivity.
 Qed.
 
-(* over every history: a (pool, account) claim record exists only if the account registered *)
+(* over every history: a (pool, account) claim record exists only if the account registered, or an
+   address rotation moved a record to that account *)
 Theorem claim_records_only_by_register : forall h s k,
   pget k (s_claims (sp_run dynguard payout_safe quorum_checked actors U s h)) <> None ->
-  pget k (s_claims s) <> None \/ exists now a p, In (now, ORegister a p) h /\ k = (p, a).
+  pget k (s_claims s) <> None \/ (exists now a p, In (now, ORegister a p) h /\ k = (p, a))
+  \/ (exists now a b, In (now, ORotate a (snd k) b) h).
 Proof.
   induction h as [|[now o] h IH]; intros s k N; cbn [sp_run fold_left] in N; [auto|].
-  destruct (IH _ _ N) as [Hs|(now' & a & p & Hin & ->)].
+  destruct (IH _ _ N) as [Hs|[(now' & a & p & Hin & ->)|(now' & a & b & Hin)]].
   - unfold sp_step in Hs. cbn [fst snd] in Hs.
     destruct (sp_apply dynguard payout_safe quorum_checked actors U now o s) as [s'| |] eqn:E; auto.
-    destruct (step_new_claim_record _ _ _ _ _ E Hs) as [L|(a & p & -> & ->)]; [auto|].
-    right. exists now, a, p. split; [left; reflexivity | reflexivity].
-  - right. exists now', a, p. split; [right; assumption | reflexivity].
+    destruct (step_new_claim_record _ _ _ _ _ E Hs) as [L|[(a & p & -> & ->)|(a & b & ->)]]; [auto| |].
+    + right. left. exists now, a, p. split; [left; reflexivity | reflexivity].
+    + right. right. exists now, a, b. left. reflexivity.
+  - right. left. exists now', a, p. split; [right; assumption | reflexivity].
+  - right. right. exists now', a, b. right. assumption.
 Qed.
 End ClaimRecords.
 
@@ -1044,14 +1079,14 @@ Theorem model_claim_passes_checker : forall S now p a s s' P,
   (* the checker's ghost record agrees with the model state *)
   zget p (ss_terms S) = Some (p_terms P) ->
   (forall d, In d U -> fget p (ss_book S) d = p_bal P d) ->
-  pget (p, a) (ss_last S) = pget (p, a) (s_claims s) ->
+  pget (p, a) (ss_last S) = pget (p, a) (s_claims s) -> ss_actors S = actors ->
   (* well-formed terms and state *)
   NoDup (map fst (t_rates (p_terms P))) -> (forall e, In e (t_rates (p_terms P)) -> 0 <= snd e) ->
   (forall w, In w (granted_weights actors (p_terms P) a) -> 0 <= w) ->
   (forall d, 0 <= p_bal P d) -> a <> MODULE ->
-  check_payment actors U S now p a (csub (s_bank s' a) (s_bank s a)) = [].
+  check_payment U S now p a (csub (s_bank s' a) (s_bank s a)) = [].
 Proof.
-  intros S now p a s s' P H EP GT GB GL ND RN WN BN AM.
+  intros S now p a s s' P H EP GT GB GL GA ND RN WN BN AM.
   destruct (sp_claim_inv _ _ _ _ _ _ H) as (P1 & last & rw1 & EP1 & EC & Hw & Hpay & Hge & Es).
   rewrite EP in EP1. inversion EP1; subst P1. clear EP1.
   assert (Hpaid : forall d, csub (s_bank s' a) (s_bank s a) d = rw1 d).
@@ -1063,7 +1098,7 @@ Proof.
     - apply (cge_on_spec _ _ _ Hge d Hin).
     - rewrite (claim_pay_support _ _ _ _ _ _ Hpay d Hn). assumption. }
   unfold check_payment. destruct (ceq U (csub (s_bank s' a) (s_bank s a)) czero); [reflexivity|].
-  rewrite GT, GL, EC.
+  rewrite GT, GL, EC, GA.
   pose proof (weight_in_granted _ _ Hw) as Win.
   set (T := p_terms P) in *. set (w := weight_of actors T a) in *.
   assert (W0 : 0 <= w) by (apply WN; exact Win).
@@ -1072,7 +1107,7 @@ Proof.
   pose proof (claim_le_entitlement actors P a last now rw1 Hpay Hs) as HE. fold T w in HE.
   assert (C1 : cnonneg U (csub (s_bank s' a) (s_bank s a)) = true).
   { unfold cnonneg. apply forallb_forall. intros d _. rewrite Hpaid. specialize (Hnn d). lia. }
-  assert (C2 : within_entitlement actors U T a last now (csub (s_bank s' a) (s_bank s a)) = true).
+  assert (C2 : within_entitlement U actors T a last now (csub (s_bank s' a) (s_bank s a)) = true).
   { unfold within_entitlement. cbv zeta. apply forallb_forall. intros d _. rewrite Hpaid.
     destruct (HE d) as [_ B]. pose proof (ent_bound_nodup (t_rates T) (entitled_seconds T last now) w d ND) as B2.
     pose proof (rate_sum_nonneg (t_rates T) d RN) as R0. pose proof (entitled_seconds_nonneg T last now) as S0.
@@ -1132,12 +1167,14 @@ Definition ghost := Z -> Z -> fcoins.
 Definition at_key (c a c' a' : Z) : bool := (c' =? c) && (a' =? a).
 (* the ghost record: set by create, increased by contribute, cleared by withdraw and for every
    record a removal deleted; nothing else touches it *)
-Definition gstep (g : ghost) (o : co_op) (s' : cstate) : ghost :=
+Definition gstep (g : ghost) (o : co_op) (s s' : cstate) : ghost :=
   match o with
   | CCreate a c bonds _ _ _ => fun c' a' => if at_key c a c' a' then cof bonds else g c' a'
   | CContribute a c bonds => fun c' a' => if at_key c a c' a' then cadd (g c a) (cof bonds) else g c' a'
   | CWithdraw a c => fun c' a' => if at_key c a c' a' then czero else g c' a'
   | CRemove c => fun c' a' => if (c' =? c) && negb (has_rec s' c' a') then czero else g c' a'
+  | CRotate a a2 _ =>     (* an address rotation renames the contributor *)
+      fun c' x => if has_rec s c' a then (if x =? a2 then g c' a else if x =? a then czero else g c' x) else g c' x
   | _ => g
   end.
 
@@ -1148,7 +1185,7 @@ Variable U : list Z.
 
 Definition gs_step (sg : cstate * ghost) (e : Z * co_op) : cstate * ghost :=
   match co_apply ratomic actors U (fst e) (snd e) (fst sg) with
-  | Ok s' => (s', gstep (snd sg) (snd e) s')
+  | Ok s' => (s', gstep (snd sg) (snd e) (fst sg) s')
   | _ => sg
   end.
 Definition gs_run (sg : cstate * ghost) (h : list (Z * co_op)) : cstate * ghost := fold_left gs_step h sg.
@@ -1161,6 +1198,10 @@ Proof.
   - assert (c' = c) by lia. subst c'. rewrite zget_zset_same. reflexivity.
   - rewrite zget_zset_other by lia. reflexivity.
 Qed.
+
+Lemma zget_map_snd : forall {A B} (f : A -> B) k (l : list (Z * A)),
+  zget k (map (fun e => (fst e, f (snd e))) l) = option_map f (zget k l).
+Proof. intros A B f k l. induction l as [|[k0 v] l IH]; cbn [map zget fst snd]; [reflexivity|]. destruct (k0 =? k); [reflexivity | exact IH]. Qed.
 
 Lemma remove_loop_keeps : forall c bonds0 l C b C' b' done,
   remove_loop U c bonds0 l C b = Ok (C', b', done) ->
@@ -1176,7 +1217,7 @@ Proof.
 Qed.
 
 Lemma step_bonds_inv : forall now o s s' g, co_apply ratomic actors U now o s = Ok s' ->
-  bonds_inv (s, g) -> bonds_inv (s', gstep g o s').
+  bonds_inv (s, g) -> bonds_inv (s', gstep g o s s').
 Proof.
   intros now o s s' g H I c' a' d. unfold bonds_inv in I. cbn [fst snd] in *. destruct o; cbn [co_apply gstep] in *.
   - (* create *) unfold co_create in H. destruct (zhas c (cs_colls s)) eqn:Z; [discriminate|].
@@ -1242,6 +1283,17 @@ Proof.
   - (* seed *) destruct (zget c (cs_colls s)) as [C|] eqn:EC; [|discriminate]. destruct (negb _); [discriminate|].
     inversion H; subst s'. rewrite cbonds_set_coll. cbn [co_contribs]. destruct (c' =? c) eqn:E; [|apply I].
     assert (c' = c) by lia. subst c'. rewrite <- I. unfold cbonds. rewrite EC. reflexivity.
+  - (* address rotation *) destruct (negb pre_ok || (a =? a'0)) eqn:G; [discriminate|]. inversion H; subst s'. clear H.
+    assert (Hne : a <> a'0) by (apply Bool.orb_false_iff in G; lia).
+    unfold cbonds at 1. cbn [cs_colls]. rewrite zget_map_snd. unfold has_rec.
+    pose proof (I c' a' d) as Ix. pose proof (I c' a d) as Ia. unfold cbonds in Ix, Ia.
+    destruct (zget c' (cs_colls s)) as [C|] eqn:EC; cbn [option_map]; [|exact Ix].
+    unfold rotate_contrib, zhas. destruct (zget a (co_contribs C)) as [cc|] eqn:ECC; [|exact Ix].
+    cbn [co_contribs]. destruct (a' =? a'0) eqn:E1.
+    + assert (a' = a'0) by lia. subst a'. rewrite zget_zins_same. exact Ia.
+    + rewrite zget_zins_other by lia. destruct (a' =? a) eqn:E2.
+      * assert (a' = a) by lia. subst a'. rewrite zget_zdel_same. reflexivity.
+      * rewrite zget_zdel_other by lia. exact Ix.
 Qed.
 
 Theorem bonds_are_sum_of_contributions : forall h sg, bonds_inv sg -> bonds_inv (gs_run sg h).
@@ -1253,3 +1305,35 @@ Qed.
 Corollary bonds_from_empty : forall h b, bonds_inv (gs_run (mkCS [] b, fun _ _ => czero) h).
 Proof. intros h b. apply bonds_are_sum_of_contributions. intros c a d. reflexivity. Qed.
 End BondsHistory.
+
+(* ---------------- the history theorems with the roles following address rotations (actors threaded) *)
+Section Threaded.
+Variable dynguard payout_safe quorum_checked : bool.
+Variable order U : list Z.
+Notation wstep := (spw_step dynguard payout_safe quorum_checked order U).
+Notation wrun := (spw_run dynguard payout_safe quorum_checked order U).
+
+Theorem books_le_module_with_rotations : forall h w,
+  Forall (fun e => op_wf (snd e)) h -> books_inv (snd w) -> books_inv (snd (wrun w h)).
+Proof.
+  induction h as [|e h IH]; intros w WF I; [exact I|].
+  inversion WF as [|? ? W1 W2]; subst. cbn [spw_run fold_left]. apply IH; [assumption|].
+  unfold spw_step. destruct (sp_apply dynguard payout_safe quorum_checked (fst w) U (fst e) (snd e) (snd w)) as [s'| |] eqn:E; try exact I.
+  cbn [snd]. destruct (step_facts _ _ _ _ _ _ _ _ _ E W1) as [A _]. intro d. specialize (A d). specialize (I d). lia.
+Qed.
+
+Theorem funds_leave_only_by_payout_with_rotations : forall h w d,
+  Forall (fun e => op_wf (snd e)) h ->
+  s_bank (snd (wrun w h)) MODULE d < s_bank (snd w) MODULE d ->
+  exists e, In e h /\ is_payout (snd e) = true.
+Proof.
+  induction h as [|e h IH]; intros w d WF Hlt; cbn [spw_run fold_left] in Hlt; [lia|].
+  inversion WF as [|? ? W1 W2]; subst.
+  destruct (Z_lt_dec (s_bank (snd (wstep w e)) MODULE d) (s_bank (snd w) MODULE d)) as [L|L].
+  - exists e. split; [left; reflexivity|]. unfold spw_step in L.
+    destruct (sp_apply dynguard payout_safe quorum_checked (fst w) U (fst e) (snd e) (snd w)) as [s'| |] eqn:E; try lia.
+    cbn [snd] in L. exact (module_outflow_needs_payout_op _ _ _ _ _ _ _ _ _ _ E W1 L).
+  - destruct (IH (wstep w e) d W2 ltac:(fold (wrun (wstep w e) h) in Hlt; lia)) as (e' & Hin & Hp).
+    exists e'. split; [right; exact Hin | exact Hp].
+Qed.
+End Threaded.
